@@ -401,6 +401,15 @@ func (l *locksPlugin) pqBegin(in *Interp, fs *FState, site ssa.Instruction, name
 	l.events++
 	l.acquired["pqtx"]++
 	p := lp(fs)
+	nested := p.n["pqtx-owned"] > 0
+	for _, t := range p.pqtx {
+		if fs.st.nilF[t.sym] != 2 {
+			nested = true
+		}
+	}
+	if nested {
+		in.report("NESTED-TX", site, "a transaction is begun ("+name+") while this queue role already holds an open transaction: a read transaction nested in an open one blocks behind a pending commit that in turn waits for the outer transaction — producer and consumer deadlock")
+	}
 	txv := in.unknown(txType)
 	txSym := 0
 	if pv, ok := txv.(PtrV); ok {
